@@ -187,6 +187,57 @@ theorem flush_empties (c : Cfg) (s : St) (m : Ctl) (rest : List Ctl)
 example : (processCtl demoCfg (run demoCfg (demoOps.take 21))).1.txs = [] ∧
     (run demoCfg (demoOps.take 21)).txs.length = 2 := by decide
 
+/-- **No undelivered message of a discarded transaction survives a flush** (repair 7c2f5a70). After a
+    tick that leaves the ROB flushing, nothing waits in the outgoing buffers of the Top and Bottom
+    ports any more, so nothing the ROB forwarded before the flush can still reach the unit below
+    (or the requester) after that unit has been restarted. -/
+theorem flushing_tick_empties_outgoing (c : Cfg) (s : St)
+    (hf : (tick c s).1.fault = none) (hfl : (tick c s).1.flushing = true) :
+    (tick c s).1.topOut = [] ∧ (tick c s).1.botOut = [] := by
+  revert hf hfl
+  unfold tick
+  split
+  · rename_i h; intro hf _; rw [hf] at h; simp at h
+  · simp only
+    split
+    · rename_i h; intro hf _; simp only at hf; rw [hf] at h; simp at h
+    · split
+      · intro _ _; exact ⟨rfl, rfl⟩
+      · rename_i hnf hnfl
+        intro hf hfl
+        exfalso
+        have hk : ∀ (f : St → St × Bool), (∀ x, (f x).1.flushing = x.flushing) →
+            ∀ n (sb : St × Bool), (iterP f n sb).1.flushing = sb.1.flushing := by
+          intro f hfx n
+          induction n with
+          | zero => intro sb; rfl
+          | succ n ih => intro sb; simp only [iterP]; rw [ih]; exact hfx _
+        have h1 : ∀ x, (bottomUp c x).1.flushing = x.flushing := by
+          intro x; unfold bottomUp; (repeat' split) <;> rfl
+        have h2 : ∀ x, (parseBottom x).1.flushing = x.flushing := by
+          intro x; unfold parseBottom; (repeat' split) <;> rfl
+        have h3 : ∀ x, (topDown c x).1.flushing = x.flushing := by
+          intro x; unfold topDown; (repeat' split) <;> rfl
+        unfold runPipeline at hfl
+        rw [hk _ h3, hk _ h2, hk _ h1] at hfl
+        exact hnfl hfl
+
+example : (run demoCfg [.top (demoReq 0 false), .tick, .ctl ⟨true, false⟩]).botOut.length = 1 ∧
+    (tick demoCfg (run demoCfg [.top (demoReq 0 false), .tick, .ctl ⟨true, false⟩])).1.flushing = true ∧
+    (tick demoCfg (run demoCfg [.top (demoReq 0 false), .tick, .ctl ⟨true, false⟩])).1.botOut = [] := by
+  decide
+
+/-- before the repair (`tickOld`) they did survive: the duplicate of a request accepted just before
+    the flush is still in the Bottom port's outgoing buffer after the flush was processed -/
+theorem flushing_tick_empties_outgoing_before_fix_refuted :
+    ¬ (∀ (c : Cfg) (s : St), (tickOld c s).1.fault = none → (tickOld c s).1.flushing = true →
+        (tickOld c s).1.topOut = [] ∧ (tickOld c s).1.botOut = []) := by
+  intro h
+  have := h demoCfg (run demoCfg [.top (demoReq 0 false), .tick, .ctl ⟨true, false⟩])
+    (by decide) (by decide)
+  revert this
+  decide
+
 /-- **No lost wake-up.** A tick that reports no progress (after which Akita stops ticking the
     component) changes nothing but the id counter, and every piece of pending work waits for an
     event that does wake the component under Akita's rules: a control message waits only for the
@@ -212,9 +263,15 @@ theorem quiescent_is_waiting (c : Cfg) (s : St) (hw : 1 ≤ c.width)
       split
       · rename_i hfl
         intro hq _
-        obtain ⟨e, hc⟩ := processCtl_quiet c s hq hnf'
-        rw [e] at hfl ⊢
-        exact ⟨rfl, hc, fun h => by simp [h] at hfl⟩
+        simp only [Bool.or_eq_false_iff] at hq
+        obtain ⟨e, hc⟩ := processCtl_quiet c s hq.1 hnf'
+        rw [e] at hfl hq ⊢
+        have hd : (dropOut s).1 = s := by
+          have h2 := hq.2
+          unfold dropOut at h2 ⊢
+          simp only [Bool.or_eq_false_iff, Bool.not_eq_false', List.isEmpty_iff] at h2
+          cases s; simp_all
+        exact ⟨by rw [hd], hc, fun h => by simp [h] at hfl⟩
       · intro hq hf
         simp only [Bool.or_eq_false_iff] at hq
         obtain ⟨e, hc⟩ := processCtl_quiet c s hq.1 hnf'
